@@ -729,6 +729,19 @@ func (h *harness) checkOp(cs Case, verbose bool) opResult {
 						stable = false
 					}
 				}
+				if stable {
+					// the pipeline itself may answer this request differently from run to run (e.g. which of
+					// two invalid input fields is reported: Go map order); four agreeing re-runs happen by
+					// chance once in a few hundred such cases — ask the transport-free run twelve more times
+					seen := map[string]bool{ref.key(): true}
+					for i := 0; i < 12; i++ {
+						r3, _ := h.evalCore(w, coreCall{hook: fl.Hook, feat: fl.Feat, cost: fl.Cost, feats: cs.Feats, q: op.Query, op: op.OpName, vars: varsAtom, exts: "nil"})
+						seen[r3.key()] = true
+					}
+					if len(seen) > 1 {
+						stable = false
+					}
+				}
 				if strings.HasPrefix(o.Resp, "closed ") {
 					// the server closed a kept connection on a well-formed operation: the re-run above
 					// went over a fresh connection and proves nothing — never dismissed as nondeterminism
